@@ -2,7 +2,7 @@
 
 from ..encoding import Instruction, Operand, Syntax
 from ..token import u16
-from .registers import ArmRegister, LowArmRegister, R7
+from .registers import ArmRegister, LowArmRegister, R7, SP
 from .thumb_relocations import Lit8Relocation, WrapNew11Relocation
 from .thumb_relocations import BImm11Imm6Relocation
 from .thumb_relocations import Rel8Relocation, BlImm11Relocation
@@ -682,6 +682,13 @@ class Push(ThumbInstruction):
     regs = Operand("regs", set)
     syntax = Syntax(["push", " ", regs])
 
+    def __init__(self, *args, **kwargs):
+        super().__init__(*args, **kwargs)
+        # The listed registers are stored, the stack pointer is adjusted:
+        regs = sorted(self.regs, key=lambda r: r.num)
+        self.extra_uses = list(self.extra_uses) + regs + [SP]
+        self.extra_defs = list(self.extra_defs) + [SP]
+
     def __repr__(self):
         return f"Push {{{self.regs}}}"
 
@@ -701,6 +708,13 @@ def register_numbers(regs):
 class Pop(ThumbInstruction):
     regs = Operand("regs", set)
     syntax = Syntax(["pop", " ", regs])
+
+    def __init__(self, *args, **kwargs):
+        super().__init__(*args, **kwargs)
+        # The listed registers are loaded, the stack pointer is adjusted:
+        regs = sorted(self.regs, key=lambda r: r.num)
+        self.extra_uses = list(self.extra_uses) + [SP]
+        self.extra_defs = list(self.extra_defs) + regs + [SP]
 
     def __repr__(self):
         return f"Pop {{{self.regs}}}"
@@ -724,6 +738,12 @@ class addspsp_base(ThumbInstruction):
     """add/sub SP with imm7 << 2"""
 
     imm7 = Operand("imm7", int)
+
+    def __init__(self, *args, **kwargs):
+        super().__init__(*args, **kwargs)
+        # The stack pointer is adjusted:
+        self.extra_uses = list(self.extra_uses) + [SP]
+        self.extra_defs = list(self.extra_defs) + [SP]
 
     def encode(self):
         assert self.imm7 < 512
